@@ -194,7 +194,7 @@ def run(ctx):
     # the producer is a keep inside a method of a class - written in the class itself, inherited from a base class, inherited over
     # two levels - and the reader comes after it (the load returns the value just kept, on a fresh and on a populated store) or
     # before it (the evaluation is rejected, nothing runs; on a populated store too, where the previous content is at hand)
-    for ci, (where, order) in enumerate([(w_, o_) for w_ in ("own", "base", "base2") for o_ in ("after", "before")]):
+    for ci, (where, order) in enumerate([(w_, o_) for w_ in ("own", "base", "base2", "prop") for o_ in ("after", "before")]):
         base = tempfile.mkdtemp(prefix="ddsverif_c09m_")
         pkg = "c9m_%d_%d" % (os.getpid(), ci)
         try:
@@ -205,7 +205,10 @@ def run(ctx):
             meth = "    def fit(self):\n        return dds.keep('/m/fit', fit_impl)\n\n"
             classes = {"own": "class Model(object):\n" + meth,
                        "base": "class Base(object):\n" + meth + "class Model(Base):\n    def other(self):\n        return 1\n\n",
-                       "base2": "class Base0(object):\n" + meth + "class Base(Base0):\n    pass\n\nclass Model(Base):\n    def other(self):\n        return 1\n\n"}[where]
+                       "base2": "class Base0(object):\n" + meth + "class Base(Base0):\n    pass\n\nclass Model(Base):\n    def other(self):\n        return 1\n\n",
+                       # the reader goes through a property that has a getter (which loads) and a setter: two definitions of one name
+                       "prop": "class Model(object):\n" + meth + "class Settings(object):\n    @property\n    def scale(self):\n        return dds.load('/m/fit')\n\n"
+                               "    @scale.setter\n    def scale(self, v):\n        self._v = v\n\n"}[where]
             body = {"after": "    a = dds.keep('/m/out', out)\n    b = dds.keep('/m/reader', reader)\n",
                     "before": "    b = dds.keep('/m/reader', reader)\n    a = dds.keep('/m/out', out)\n"}[order]
             for step, (expr, fbody) in enumerate([("'v1'", body if order == "after" else None), ("'v2'", body), ("'v2'", body), ("'v3'", body)]):
@@ -214,8 +217,9 @@ def run(ctx):
                     fbody = "    a = dds.keep('/m/out', out)\n    b = None\n"
                 src = ("import dds\nfrom ddsverif_rt import log, term\n\n"
                        "def fit_impl():\n    log('fit')\n    return term('fit', %s)\n\n" % expr + classes +
-                       "def out():\n    log('out')\n    m = Model()\n    return term('out', m.fit())\n\n"
-                       "def reader():\n    log('reader')\n    return term('reader', dds.load('/m/fit'))\n\n"
+                       "def out():\n    log('out')\n    m = Model()\n    return term('out', m.fit())\n\n" +
+                       ("def reader():\n    log('reader')\n    return term('reader', Settings().scale)\n\n" if where == "prop" else
+                        "def reader():\n    log('reader')\n    return term('reader', dds.load('/m/fit'))\n\n") +
                        "def f0():\n" + fbody + "    return term('f0', a, b)\n")
                 os.makedirs(os.path.join(base, pkg), exist_ok=True)
                 open(os.path.join(base, pkg, "__init__.py"), "w").close()
